@@ -119,15 +119,14 @@ def _cromermann_case(E):
     E.eq('f0_at_Q0_is_sum_a_plus_c', z, sum(a) + c)
 
 
-def _ground_case(case, tier, seed):
+def _ground_table(case, tab, tag, res):
     """ground facts on the shipped tables (not symbolic): <j0>(0) within 0.5% of 1, higher orders 0,
     f0(0) = Z - charge for every Cromer-Mann entry, NaN beyond Q = 24 pi"""
     import periodictable as pt
     from periodictable import cromermann
     import re
-    res = dict(paths=1, claims=0, discharged=0, queries=0, distinct=0, violations=[], inconclusive=[], samples=[], solver_s=0.0, complete=True)
     n_ff = 0
-    for el in pt.elements:
+    for el in tab:
         ffs = getattr(el, 'magnetic_ff', None)
         if not ffs:
             continue
@@ -142,7 +141,7 @@ def _ground_case(case, tier, seed):
                 if ok:
                     res['discharged'] += 1
                 else:
-                    res['violations'].append(dict(case=case.name, claim='Q0_limit[%s%+d %s]' % (el.symbol, charge, kind), values={},
+                    res['violations'].append(dict(case=case.name, claim=('Q0_limit[%s%+d %s|' + tag + ']') % (el.symbol, charge, kind), values={},
                                                   observed=[v, 1 if kind == 'j0' else 0], how='concrete'))
     # magnetic coefficient sets against an independent reading of the embedded CFML text
     from periodictable import magnetic_ff as mff
@@ -158,7 +157,7 @@ def _ground_case(case, tier, seed):
             continue
         want_ff.setdefault((m.group(1).capitalize(), int(m.group(2))), {})[kind] = tuple(float(x) for x in body.split(','))
     n_tab = 0
-    for el in pt.elements:
+    for el in tab:
         ffs = getattr(el, 'magnetic_ff', None) or {}
         charges = sorted(q for (s_, q) in want_ff if s_ == el.symbol)
         res['claims'] += 1
@@ -166,7 +165,7 @@ def _ground_case(case, tier, seed):
         if sorted(ffs) == charges:
             res['discharged'] += 1
         else:
-            res['violations'].append(dict(case=case.name, claim='magnetic_charge_states[%s]' % el.symbol, values={}, observed=[repr(sorted(ffs)), repr(charges)], how='concrete'))
+            res['violations'].append(dict(case=case.name, claim=('magnetic_charge_states[%s|' + tag + ']') % el.symbol, values={}, observed=[repr(sorted(ffs)), repr(charges)], how='concrete'))
             continue
         for q in charges:
             w = want_ff[(el.symbol, q)]
@@ -176,7 +175,7 @@ def _ground_case(case, tier, seed):
             if got == w:
                 res['discharged'] += 1
             else:
-                res['violations'].append(dict(case=case.name, claim='magnetic_coefficients[%s%+d]' % (el.symbol, q), values={},
+                res['violations'].append(dict(case=case.name, claim=('magnetic_coefficients[%s%+d|' + tag + ']') % (el.symbol, q), values={},
                                               observed=[repr(got)[:200], repr(w)[:200]], how='concrete'))
     cromermann.getCMformula('H')
     n_cm = 0
@@ -185,7 +184,7 @@ def _ground_case(case, tier, seed):
         if not m or m.group(4):
             continue      # e.g. 'Hval', 'H.': not an element/ion symbol
         try:
-            el = pt.elements.symbol(m.group(1))
+            el = tab.symbol(m.group(1))
         except ValueError:
             continue
         q = int(m.group(2)) * (1 if m.group(3) == '+' else -1) if m.group(2) else 0
@@ -195,12 +194,12 @@ def _ground_case(case, tier, seed):
         if abs(v0 - (el.number - q)) <= 0.02 * max(1, el.number):
             res['discharged'] += 1
         else:
-            res['violations'].append(dict(case=case.name, claim='f0_at_0[%s]' % smbl, values={}, observed=[v0, el.number - q], how='concrete'))
+            res['violations'].append(dict(case=case.name, claim=('f0_at_0[%s|' + tag + ']') % smbl, values={}, observed=[v0, el.number - q], how='concrete'))
         vn = float(f.atstol(6.0001))
         if vn != vn and float(f.atstol(6.0)) == float(f.atstol(6.0)):
             res['discharged'] += 1
         else:
-            res['violations'].append(dict(case=case.name, claim='nan_beyond_range[%s]' % smbl, values={}, observed=[vn, 'nan'], how='concrete'))
+            res['violations'].append(dict(case=case.name, claim=('nan_beyond_range[%s|' + tag + ']') % smbl, values={}, observed=[vn, 'nan'], how='concrete'))
     # the same entries reached through the public per-ion API: element.ion[q].xray.f0(Q)
     n_api = 0
     for smbl, f in cromermann._cmformulas.items():
@@ -208,7 +207,7 @@ def _ground_case(case, tier, seed):
         if not m:
             continue
         try:
-            el = pt.elements.symbol(m.group(1))
+            el = tab.symbol(m.group(1))
         except ValueError:
             continue
         q = int(m.group(2)) * (1 if m.group(3) == '+' else -1) if m.group(2) else 0
@@ -223,7 +222,7 @@ def _ground_case(case, tier, seed):
             if abs(got - want) <= 1e-9 * max(1.0, abs(want)):
                 res['discharged'] += 1
             else:
-                res['violations'].append(dict(case=case.name, claim='f0_entry_for_ion[%s]' % smbl, values={'Q': Q}, observed=[got, want], how='concrete'))
+                res['violations'].append(dict(case=case.name, claim=('f0_entry_for_ion[%s|' + tag + ']') % smbl, values={'Q': Q}, observed=[got, want], how='concrete'))
     # covalent radii and uncertainties against an independent reading of the embedded table
     from periodictable import covalent_radius
     rows = {}
@@ -233,7 +232,7 @@ def _ground_case(case, tier, seed):
             continue
         rows.setdefault(int(w[0]), (float(w[2]), float(w[3]) * 0.01 if len(w) > 3 else 0.0))
     n_rad = 0
-    for el in pt.elements:
+    for el in tab:
         if el.number == 0:
             continue
         res['claims'] += 1
@@ -246,7 +245,7 @@ def _ground_case(case, tier, seed):
         if ok:
             res['discharged'] += 1
         else:
-            res['violations'].append(dict(case=case.name, claim='covalent_radius[%s]' % el.symbol, values={}, observed=[repr((r, dr)), repr(rows.get(el.number))], how='concrete'))
+            res['violations'].append(dict(case=case.name, claim=('covalent_radius[%s|' + tag + ']') % el.symbol, values={}, observed=[repr((r, dr)), repr(rows.get(el.number))], how='concrete'))
     # K-alpha / K-beta1 emission lines
     from periodictable import xsf
     lines = {}
@@ -255,7 +254,7 @@ def _ground_case(case, tier, seed):
         if len(w) == 3:
             lines[w[0]] = (float(w[1]), float(w[2]))
     n_lines = 0
-    for el in pt.elements:
+    for el in tab:
         res['claims'] += 1
         n_lines += 1
         ka, kb = getattr(el, 'K_alpha', None), getattr(el, 'K_beta1', None)
@@ -263,9 +262,59 @@ def _ground_case(case, tier, seed):
         if ok:
             res['discharged'] += 1
         else:
-            res['violations'].append(dict(case=case.name, claim='emission_lines[%s]' % el.symbol, values={}, observed=[repr((ka, kb)), repr(lines.get(el.symbol))], how='concrete'))
+            res['violations'].append(dict(case=case.name, claim=('emission_lines[%s|' + tag + ']') % el.symbol, values={}, observed=[repr((ka, kb)), repr(lines.get(el.symbol))], how='concrete'))
+    # crystal structures: the embedded list is positional (index = Z).  Its per-line '#Symbol' comments are used only to
+    # confirm that positions and atomic numbers line up (the comments themselves contain a typo: 'Th' on the Tb line).
+    from periodictable import crystal_structure as cs
+    import inspect
+    src = inspect.getsource(cs)
+    body = src[src.index('crystal_structures = ['):src.index('def init')]
+    labels = [m.group(1) for m in re.finditer(r"#\s*(\w+)\s*$", body, re.M)]
+    res['claims'] += 1
+    agree = sum(1 for z, lab in enumerate(labels) if z < len(tab._element) and tab[z].symbol == lab)
+    if len(labels) == len(cs.crystal_structures) and agree >= len(labels) - 3:
+        res['discharged'] += 1
+    else:
+        res['violations'].append(dict(case=case.name, claim='crystal_structure_rows_aligned_with_Z', values={}, observed=[agree, len(labels)], how='concrete'))
+    n_cs = 0
+    for el in tab:
+        res['claims'] += 1
+        n_cs += 1
+        got = getattr(el, 'crystal_structure', None)
+        want = cs.crystal_structures[el.number] if el.number < len(cs.crystal_structures) else None
+        if got == want and (want is None or got is want):
+            res['discharged'] += 1
+        else:
+            res['violations'].append(dict(case=case.name, claim=('crystal_structure[%s|' + tag + ']') % el.symbol, values={}, observed=[repr(got), repr(want)], how='concrete'))
+    res['samples'].append(dict(table=tag, magnetic_coefficient_sets=n_ff, crystal_structure_slots=n_cs, crystal_rows_read=len(labels), magnetic_table_entries=n_tab, cromer_mann_entries=n_cm, f0_via_ion_api=n_api, covalent_radii=n_rad, emission_rows=n_lines))
+
+
+def _ground_case(case, tier, seed):
+    """the shipped-table sweep on the public table and on a freshly initialised private table"""
+    import periodictable as pt
+    from periodictable import core, mass, density, covalent_radius, crystal_structure, magnetic_ff, xsf
+    import os
+    res = dict(paths=1, claims=0, discharged=0, queries=0, distinct=0, violations=[], inconclusive=[], samples=[], solver_s=0.0, complete=True)
+    for el in (pt.Fe, pt.Cu):
+        el.covalent_radius, el.crystal_structure, el.magnetic_ff, el.K_alpha, el.xray      # public table: load every group
+    T = core.PeriodicTable('vsym-c20-%d' % os.getpid())
+    try:
+        for m in (mass, density, covalent_radius, crystal_structure, magnetic_ff, xsf):
+            m.init(T)
+        xsf.init_spectral_lines(T)
+    finally:
+        for k, v in list(core.PRIVATE_TABLES.items()):
+            if v is T:
+                del core.PRIVATE_TABLES[k]
+    _ground_table(case, pt.elements, 'public', res)
+    _ground_table(case, T, 'private', res)
+    # nothing is shared between the two tables' records
+    res['claims'] += 1
+    if T.Fe.magnetic_ff is not pt.Fe.magnetic_ff and T.Fe is not pt.Fe:
+        res['discharged'] += 1
+    else:
+        res['violations'].append(dict(case=case.name, claim='private_table_has_own_records', values={}, observed=['shared', 'separate'], how='concrete'))
     res['queries'] = res['distinct'] = res['claims']
-    res['samples'] = [dict(magnetic_coefficient_sets=n_ff, magnetic_table_entries=n_tab, cromer_mann_entries=n_cm, f0_via_ion_api=n_api, covalent_radii=n_rad, emission_rows=n_lines)]
     res['violations'] = res['violations'][:5]
     return res
 
